@@ -1,6 +1,7 @@
 package main
 
 import (
+	"bytes"
 	"encoding/json"
 	"fmt"
 	"math/big"
@@ -18,6 +19,7 @@ type c12In struct {
 	WantPK bool `json:"pk"`  // record the public key (ECDSA; costs one model scalar multiplication)
 	Conc   int  `json:"conc,omitempty"` // keygen: also call from 16 goroutines, Conc times each ("identical on every call")
 	Mask   int  `json:"mask,omitempty"` // blspk: bit i set = PublicKey() was called on input key i before aggregation
+	Route  string `json:"route,omitempty"` // blspk: "generated" = In is a seed, the key under test comes from GeneratePrivateKey
 }
 
 func init() {
@@ -28,9 +30,9 @@ func init() {
 		PropCheck: "prop_bad_ids",
 		Gen:       c12Gen,
 		Run:       c12Run,
-		Rule:      "GeneratePrivateKey on seeds of every length 0..300 (all-zero, all-0xff, random contents) for BLS, P-256, secp256k1, each called twice; DecodePrivateKey on edge scalars (1, 2, n-1, n, 0, leading zero bytes) with the public key compared to scalar*G; a case is non-trivial if a key was produced or the input was rejected; distinct by (op, alg, input)",
+		Rule:      "GeneratePrivateKey on seeds of every length 0..300 (all-zero, all-0xff, random contents) for BLS, P-256, secp256k1, each called twice; DecodePrivateKey on edge scalars (1, 2, n-1, n, 0, leading zero bytes) with the public key compared to scalar*G; seed lengths in range only modulo 256 (287..1124; modulo 2^16 judged by the runner), nil seed, the seed passed as a window of a larger buffer that must stay untouched, unsupported algorithm values (0, 4, 256+alg, -1) for GeneratePrivateKey / DecodePrivateKey, Encode() results scribbled over (results are values); BLS public keys compared with [scalar] g2 for GENERATED keys, for decoded keys at the ends of the range (1, 2, r-1, 2^64, 2^254) and for aggregated keys with coincidences (k + (r-k) = 0: the identity key, k + k, sums 1 and r-1, three keys) under several cache masks, each also compared with the identity key and re-decoded; cases dealt round-robin over the shards; a case is non-trivial if a key was produced or the input was rejected; distinct by (op, alg, input)",
 		RaceKinds: []string{"keygen-concurrent"},
-		Shard:     25,
+		Shard:     c12Shard,
 	})
 }
 
@@ -78,10 +80,10 @@ func c12Gen(tier string, r *rand.Rand) []Case {
 			if wantPK {
 				npk++
 			}
-			cs = append(cs, mkcase("keygen-random", c12In{"keygen", a, hx(rbytes(r, l)), wantPK, 0, 0}))
+			cs = append(cs, mkcase("keygen-random", c12In{Op: "keygen", Alg: a, In: hx(rbytes(r, l)), WantPK: wantPK, Conc: 0}))
 			if tier == "thorough" || boundary[l] || (pick && l%4 == 0) {
-				cs = append(cs, mkcase("keygen-zero", c12In{"keygen", a, hx(fill(l, 0)), false, 0, 0}))
-				cs = append(cs, mkcase("keygen-ff", c12In{"keygen", a, hx(fill(l, 0xff)), false, 0, 0}))
+				cs = append(cs, mkcase("keygen-zero", c12In{Op: "keygen", Alg: a, In: hx(fill(l, 0)), WantPK: false, Conc: 0}))
+				cs = append(cs, mkcase("keygen-ff", c12In{Op: "keygen", Alg: a, In: hx(fill(l, 0xff)), WantPK: false, Conc: 0}))
 			}
 		}
 	}
@@ -95,7 +97,7 @@ func c12Gen(tier string, r *rand.Rand) []Case {
 		if tier == "thorough" {
 			n *= 4
 		}
-		cs = append(cs, mkcase("keygen-concurrent", c12In{"keygen", a, hx(rbytes(r, 32+i*7)), false, n, 0}))
+		cs = append(cs, mkcase("keygen-concurrent", c12In{Op: "keygen", Alg: a, In: hx(rbytes(r, 32+i*7)), WantPK: false, Conc: n}))
 	}
 	// BLS public keys of decoded and aggregated private keys: "whether generated, decoded or aggregated,
 	// the public key equals the private scalar times the generator".  Every subset of the inputs has had
@@ -128,9 +130,45 @@ func c12Gen(tier string, r *rand.Rand) []Case {
 			}
 		}
 	}
+	// seed lengths that are in range only modulo 256 (and, judged by the runner, modulo 2^16)
+	for _, l := range []int{256 + 31, 256 + 32, 256 + 48, 256 + 64, 512, 512 + 32, 1024 + 100} {
+		for _, a := range algs {
+			cs = append(cs, mkcase("keygen-wide-length", c12In{Op: "keygen", Alg: a, In: hx(rbytes(r, l))}))
+		}
+	}
+	// the BLS public key of GENERATED keys, and of decoded / aggregated keys at the ends of the scalar range and
+	// with algebraic coincidences (equal keys, sum 0 = the identity key, sum 1, sum r-1)
+	{
+		for _, l := range []int{32, 33, 64, 256} {
+			cs = append(cs, mkcase("blspk-generated", c12In{Op: "blspk", Alg: "bls", In: hx(rbytes(r, l)), Route: "generated"}))
+		}
+		f32 := func(x *big.Int) []byte { return x.FillBytes(make([]byte, 32)) }
+		rm := func(d int64) *big.Int { return new(big.Int).Sub(blsR, big.NewInt(d)) }
+		for i, x := range []*big.Int{big.NewInt(1), big.NewInt(2), rm(1), new(big.Int).Lsh(big.NewInt(1), 64), new(big.Int).Lsh(big.NewInt(1), 254)} {
+			cs = append(cs, mkcase("blspk-decoded-edge", c12In{Op: "blspk", Alg: "bls", In: hx(f32(x)), Mask: i % 2}))
+		}
+		k := new(big.Int).SetBytes(rbytes(r, 31))
+		for i, pair := range [][]*big.Int{{k, new(big.Int).Sub(blsR, k)}, {k, k}, {rm(1), big.NewInt(1)}, {rm(1), big.NewInt(2)}, {rm(2), big.NewInt(1)}, {rm(1), rm(1)},
+			{k, new(big.Int).Sub(blsR, k), k}, {big.NewInt(1), big.NewInt(1), rm(2)}} {
+			var b []byte
+			for _, x := range pair {
+				b = append(b, f32(x)...)
+			}
+			masks := []int{0, 1<<len(pair) - 1, 1 + i%2}
+			if tier == "thorough" {
+				masks = nil
+				for mk := 0; mk < 1<<len(pair); mk++ {
+					masks = append(masks, mk)
+				}
+			}
+			for _, mk := range masks {
+				cs = append(cs, mkcase("blspk-aggregated-coincidence", c12In{Op: "blspk", Alg: "bls", In: hx(b), Mask: mk}))
+			}
+		}
+	}
 	// the repository's pinned vectors
 	for _, a := range algs {
-		cs = append(cs, mkcase("keygen-pinned", c12In{"keygen", a, "00112233445566778899aabbccddeeff00112233445566778899aabbccddeeff", a != "bls", 0, 0}))
+		cs = append(cs, mkcase("keygen-pinned", c12In{Op: "keygen", Alg: a, In: "00112233445566778899aabbccddeeff00112233445566778899aabbccddeeff", WantPK: a != "bls", Conc: 0}))
 	}
 	// DecodePrivateKey on edge scalars; public key = scalar * G
 	for _, a := range []string{"p256", "k1"} {
@@ -160,14 +198,27 @@ func c12Gen(tier string, r *rand.Rand) []Case {
 			if s.BitLen() > 256 {
 				continue
 			}
-			cs = append(cs, mkcase("decode-scalar", c12In{"decode", a, hx(s.FillBytes(make([]byte, 32))), true, 0, 0}))
+			cs = append(cs, mkcase("decode-scalar", c12In{Op: "decode", Alg: a, In: hx(s.FillBytes(make([]byte, 32))), WantPK: true, Conc: 0}))
 		}
 		for _, l := range []int{0, 31, 33} {
-			cs = append(cs, mkcase("decode-length", c12In{"decode", a, hx(rbytes(r, l)), false, 0, 0}))
+			cs = append(cs, mkcase("decode-length", c12In{Op: "decode", Alg: a, In: hx(rbytes(r, l)), WantPK: false, Conc: 0}))
 		}
 	}
-	return cs
+	// the cases with a scalar multiplication for the Coq evaluator are contiguous in generation order: deal
+	// the cases round-robin over the shards
+	nsh := (len(cs) + c12Shard - 1) / c12Shard
+	buckets := make([][]Case, nsh)
+	for i, c := range cs {
+		buckets[i%nsh] = append(buckets[i%nsh], c)
+	}
+	var out []Case
+	for _, b := range buckets {
+		out = append(out, b...)
+	}
+	return out
 }
+
+const c12Shard = 25
 
 func c12Run(c Case) (Result, error) {
 	var in c12In
@@ -183,11 +234,41 @@ func c12Run(c Case) (Result, error) {
 	var err, err2 error
 	kind := 0
 	var pmsg string
+	complaint := ""
 	panicked, pmsg := catch(func() {
 		if in.Op == "keygen" {
-			sk, err = crypto.GeneratePrivateKey(alg, input)
+			// the seed is a window of a larger buffer (spare capacity on both sides): nothing may be written
+			buf := bytes.Repeat([]byte{0xA5}, len(input)+64)
+			copy(buf[16:], input)
+			ref := append([]byte{}, buf...)
+			sk, err = crypto.GeneratePrivateKey(alg, buf[16:16+len(input)])
+			if !bytes.Equal(buf, ref) {
+				complaint = "GeneratePrivateKey wrote to the caller's seed buffer"
+			}
 			// second call on a fresh copy of the seed
 			sk2, err2 = crypto.GeneratePrivateKey(alg, append([]byte{}, input...))
+			if len(input) == 0 {
+				if k, e := crypto.GeneratePrivateKey(alg, nil); k != nil || !crypto.IsInvalidInputsError(e) {
+					complaint = fmt.Sprintf("GeneratePrivateKey(nil seed) returned %v", e)
+				}
+			}
+			if len(input) > 256 && len(input)%256 >= 32 {
+				// the same modulo 2^16 and 2^32 would need seeds too long for a Coq literal: judged here
+				for _, l := range []int{65536 + len(input)%256, 65536 * 3 + 32} {
+					if k, e := crypto.GeneratePrivateKey(alg, make([]byte, l)); k != nil || !crypto.IsInvalidInputsError(e) {
+						complaint = fmt.Sprintf("GeneratePrivateKey with a %d-byte seed returned %v, documented: invalid-input error", l, e)
+					}
+				}
+			}
+			// algorithms the package does not support
+			for _, other := range []crypto.SigningAlgorithm{crypto.UnknownSigningAlgorithm, crypto.SigningAlgorithm(4), crypto.SigningAlgorithm(256 + int(alg)), crypto.SigningAlgorithm(-1)} {
+				if k, e := crypto.GeneratePrivateKey(other, input); k != nil || !crypto.IsInvalidInputsError(e) {
+					complaint = fmt.Sprintf("GeneratePrivateKey(algorithm %d) returned %v, documented: invalid-input error", int(other), e)
+				}
+				if k, e := crypto.DecodePrivateKey(other, input); k != nil || !crypto.IsInvalidInputsError(e) {
+					complaint = fmt.Sprintf("DecodePrivateKey(algorithm %d) returned %v, documented: invalid-input error", int(other), e)
+				}
+			}
 		} else {
 			kind = 1
 			sk, err = crypto.DecodePrivateKey(alg, input)
@@ -196,6 +277,9 @@ func c12Run(c Case) (Result, error) {
 	})
 	if panicked {
 		return Result{}, implViolation("panic in key construction: %s", pmsg)
+	}
+	if complaint != "" {
+		return Result{}, implViolation("%s (input %s)", complaint, in.In)
 	}
 	concBad, concVal, concNote := false, "", ""
 	if in.Conc > 0 && err == nil && err2 == nil {
@@ -254,6 +338,17 @@ func c12Run(c Case) (Result, error) {
 			sk2Hex = concVal
 		}
 		p1 := sk.PublicKey()
+		// results are values: scribbling over a returned encoding must not change the key
+		e1, pe1 := sk.Encode(), p1.Encode()
+		for i := range e1 {
+			e1[i] ^= 0xff
+		}
+		for i := range pe1 {
+			pe1[i] ^= 0xff
+		}
+		if hx(sk.Encode()) != skHex || hx(p1.Encode()) == hx(pe1) {
+			return Result{}, implViolation("Encode() returns a slice that aliases the key's state (input %s)", in.In)
+		}
 		p2 := sk.PublicKey()
 		q := sk2
 		idem = p1 == p2 && p1.Equals(p2) && p2.Equals(p1) && err2 == nil && sk.Equals(q) && q.Equals(sk) &&
@@ -293,6 +388,16 @@ func c12BlsPK(c Case, in c12In, input []byte) (Result, error) {
 	var key, key2 crypto.PrivateKey
 	var err, err2 error
 	panicked, pmsg := catch(func() {
+		if in.Route == "generated" {
+			// the key under test is the object returned by GeneratePrivateKey; its scalar is what it encodes to
+			key, err = crypto.GeneratePrivateKey(crypto.BLSBLS12381, input)
+			key2, err2 = crypto.GeneratePrivateKey(crypto.BLSBLS12381, append([]byte{}, input...))
+			if err == nil && err2 == nil {
+				_ = key2.PublicKey()
+				in.In = hx(key.Encode())
+			}
+			return
+		}
 		key, err = mk(func(i int) bool { return in.Mask>>i&1 == 1 })
 		key2, err2 = mk(func(int) bool { return true })
 	})
@@ -305,6 +410,14 @@ func c12BlsPK(c Case, in c12In, input []byte) (Result, error) {
 	p1, p2 := key.PublicKey(), key.PublicKey()
 	idem := p1.Equals(p2) && p2.Equals(p1) && hx(p1.Encode()) == hx(p2.Encode()) && key.Equals(key2) &&
 		key2.PublicKey().Equals(p1) && hx(key2.PublicKey().Encode()) == hx(p1.Encode())
+	// a key object behaves as its point: the identity key is recognised by the package, any other is not
+	zero := new(big.Int).SetBytes(key.Encode()).Sign() == 0
+	if p1.Equals(crypto.IdentityBLSPublicKey()) != zero || crypto.IdentityBLSPublicKey().Equals(p1) != zero {
+		return Result{}, implViolation("public key of the private key %x: Equals(identity key) = %v", key.Encode(), !zero)
+	}
+	if dk, err := crypto.DecodePublicKey(crypto.BLSBLS12381, p1.Encode()); err != nil || !dk.Equals(p1) {
+		return Result{}, implViolation("public key %x of the private key %x does not decode to an Equal key: %v", p1.Encode(), key.Encode(), err)
+	}
 	term := fmt.Sprintf("mkCase 2%%N ABls %s true false %s %s %s %s", cqs(in.In), cqs(hx(key.Encode())), cqs(hx(key2.Encode())), cqs(hx(p1.Encode())), cqbool(idem))
 	return Result{Coq: term, Key: string(c.Input), Nontrivial: true,
 		Obs: map[string]any{"sk": hx(key.Encode()), "pk": hx(p1.Encode()), "pubkey_consistent": idem, "mask": in.Mask, "keys": n}}, nil
